@@ -44,6 +44,7 @@ func runC19(l *core.Ledger) {
 	c19S3(l, r)
 	c19S5(l, r)
 	c19S6(l, r)
+	c19S8S9(l, r)
 }
 
 // ---------------------------------------------------------------- S1
@@ -1399,4 +1400,155 @@ func c19S6(l *core.Ledger, r *rt) {
 		visit(keyFns[name], 0)
 		l.Check(bad == "", "C19-S6", "gorums."+name+"/total", badPos, "no use of a node's channel without a nil test", "the "+name+" key uses a node's channel (in "+bad+") without testing it for nil: a node that has not been added to a manager yet, or one of a manager created with WithNoConnect, has no channel, and sorting such nodes by this key panics")
 	}
+}
+
+// c19S8S9: what the Port key reads is the node's port *number*.
+// S8: the key discards the error of the text-to-number conversion (a node
+// without a numeric port counts as port 0), so the address stored in a node must
+// end in a decimal port: it is the resolved address's String() or rebuilt from
+// its numeric components, never the caller's text (which may name a service:
+// "host:https").
+// S9: the conversion keeps every port apart: base 10, wide enough for 0..65535,
+// no narrowing conversion of the result.
+func c19S8S9(l *core.Ledger, r *rt) {
+	l.Rule("C19-S8", "every address stored in a node ends in a decimal port: each store into RawNode.addr depends on the resolved address (String() or its IP, Port, Zone) and not on the caller's text - the Port key reads the port through a conversion whose error it discards")
+	l.Rule("C19-S9", "the keys' text-to-number conversions are lossless on what they read: strconv.Atoi, ParseInt(s, 10, 0|32|64) or ParseUint(s, 10, 0|16|32|64), and no conversion of the result to a narrower integer type")
+	n := 0
+	for _, f := range allFuncs(l.Prog, r.pkg) {
+		f := f
+		sx.AllInstrs(f, func(_ sx.Node, in ssa.Instruction) {
+			st, ok := in.(*ssa.Store)
+			if !ok {
+				return
+			}
+			fa, ok := st.Addr.(*ssa.FieldAddr)
+			if !ok || !isNamed(fa.X.Type(), core.RootModule, "RawNode") {
+				return
+			}
+			if fld := fieldOf(fa.X.Type(), fa.Field); fld == nil || fld.Name() != "addr" {
+				return
+			}
+			n++
+			key := fmt.Sprintf("%s/addr-store%d/numeric-port", fnKey(f), n)
+			whole, raw, parts, _ := addrDependence(st)
+			resolved := whole || parts["Port"]
+			switch {
+			case raw:
+				l.Bad("C19-S8", key, st.Pos(), "the address stored in the node can be the caller's text: a service name instead of a port number (\"host:https\") survives into RawNode.addr, Port() returns it, the Port key's conversion fails silently and the node counts as port 0 - nodes with named ports tie and sort ahead of every numeric port")
+			case resolved:
+				l.OK("C19-S8", key, st.Pos(), "the resolved address (numeric port)")
+			default:
+				l.Unknown("C19-S8", key, st.Pos(), "cannot tell whether the stored address ends in a decimal port")
+			}
+		})
+	}
+	l.Floor("C19-S8", n, 1, "stores into RawNode.addr")
+	// S9
+	init := r.spkg.Func("init")
+	if init == nil {
+		l.Unknown("C19-S9", "anchor/init", token.NoPos, "package initialiser not found")
+		return
+	}
+	nk := 0
+	for _, k := range sortKeys(r) {
+		var kf *ssa.Function
+		for _, an := range init.AnonFuncs {
+			if an.Pos() == k.lit.Pos() || an.Pos() == k.lit.Type.Func {
+				kf = an
+			}
+		}
+		if kf == nil {
+			continue
+		}
+		nk++
+		bad := ""
+		var badPos token.Pos
+		nconv := 0
+		seen := map[*ssa.Function]bool{}
+		var visit func(f *ssa.Function, depth int)
+		visit = func(f *ssa.Function, depth int) {
+			if f == nil || seen[f] || depth > 3 || len(f.Blocks) == 0 {
+				return
+			}
+			seen[f] = true
+			sx.AllInstrs(f, func(_ sx.Node, in ssa.Instruction) {
+				switch x := in.(type) {
+				case *ssa.Call:
+					cs := x.Call.StaticCallee()
+					if cs == nil {
+						return
+					}
+					if cs.Pkg != nil && cs.Pkg.Pkg.Path() == "strconv" {
+						constArg := func(i int) (int64, bool) {
+							if i >= len(x.Call.Args) {
+								return 0, false
+							}
+							c, isC := x.Call.Args[i].(*ssa.Const)
+							if !isC || c.Value == nil {
+								return 0, false
+							}
+							return constant.Int64Val(constant.ToInt(c.Value))
+						}
+						switch cs.Name() {
+						case "Atoi":
+							nconv++
+						case "ParseInt", "ParseUint":
+							nconv++
+							base, okB := constArg(1)
+							bits, okS := constArg(2)
+							minBits := int64(32)
+							if cs.Name() == "ParseUint" {
+								minBits = 16
+							}
+							if !okB || !okS || base != 10 || (bits != 0 && bits < minBits) {
+								if bad == "" {
+									bad, badPos = fmt.Sprintf("%s with base %d and bit size %d in %s", cs.Name(), base, bits, fnKey(f)), x.Pos()
+								}
+							}
+						case "ParseFloat", "ParseBool", "Itoa", "FormatInt", "Quote":
+							if bad == "" && (cs.Name() == "ParseFloat" || cs.Name() == "ParseBool") {
+								bad, badPos = cs.Name()+" in "+fnKey(f), x.Pos()
+							}
+						}
+						return
+					}
+					if inRepo(cs) && cs.Signature.Recv() != nil && isNamed(cs.Signature.Recv().Type(), core.RootModule, "RawNode") {
+						visit(cs, depth+1)
+					}
+				case *ssa.Convert:
+					// a narrowing integer conversion on the way from the parse to the comparison
+					from, okF := x.X.Type().Underlying().(*types.Basic)
+					to, okT := x.Type().Underlying().(*types.Basic)
+					if !okF || !okT || from.Info()&types.IsInteger == 0 || to.Info()&types.IsInteger == 0 {
+						return
+					}
+					size := func(b *types.Basic) int {
+						switch b.Kind() {
+						case types.Int8, types.Uint8:
+							return 8
+						case types.Int16:
+							return 15
+						case types.Uint16:
+							return 16
+						case types.Int32:
+							return 31
+						case types.Uint32:
+							return 32
+						}
+						return 63
+					}
+					if size(to) < size(from) && size(to) < 16 && bad == "" {
+						bad, badPos = "conversion to "+to.Name()+" in "+fnKey(f), x.Pos()
+					}
+				}
+			})
+		}
+		visit(kf, 0)
+		if nconv == 0 && bad == "" {
+			l.OK("C19-S9", "gorums."+k.name+"/conversions", k.pos, "no text-to-number conversion")
+			continue
+		}
+		l.Check(bad == "", "C19-S9", "gorums."+k.name+"/conversions", badPos, fmt.Sprintf("%d lossless conversions", nconv), "the "+k.name+" key reads its number through a lossy conversion ("+bad+"): strconv returns the nearest representable value with an error the key discards, so all values beyond the range tie - for a 16-bit signed parse every port above 32767 - and such nodes are left in input order / ordered by the next key although their numbers differ")
+	}
+	l.Floor("C19-S9", nk, 3, "provided keys")
 }
